@@ -272,6 +272,25 @@ pub fn take_probes() -> BTreeMap<&'static str, u64> {
     darklua_core::verif_hooks::verif_take_probes()
 }
 
+/// Error texts quote paths the way the invocation spelled them (`in/../../cwd/out/a.lua`,
+/// `../cwd/src/a.lua`); the oracles work with paths relative to the simulated working
+/// directory, so such prefixes are rewritten to the canonical spelling.
+pub fn canon_text(text: &str, opts: &OptSpec) -> String {
+    let mut out = text.to_owned();
+    for raw in [Some(&opts.input), opts.output.as_ref()].into_iter().flatten() {
+        if !raw.contains("..") {
+            continue;
+        }
+        let canonical = crate::gen::normalize(raw);
+        for spelled in [raw.trim_end_matches('/').to_owned(), crate::gen::lexical_normalize(raw)] {
+            if spelled != canonical && !spelled.is_empty() && !canonical.is_empty() {
+                out = out.replace(&spelled, &canonical);
+            }
+        }
+    }
+    out
+}
+
 /// One fresh `darklua_core::process` call (what `darklua process` does without `--watch`).
 pub fn fresh_process(resources: &Resources, opts: &OptSpec) -> Outcome {
     let options = match build_options(opts) {
@@ -284,8 +303,11 @@ pub fn fresh_process(resources: &Resources, opts: &OptSpec) -> Outcome {
         Ok(Err(err)) => Outcome::BatchErr(err.to_string()),
         Ok(Ok(tree)) => {
             let success = tree.success_count();
-            let mut errors: Vec<String> =
-                tree.collect_errors().iter().map(|e| e.to_string()).collect();
+            let mut errors: Vec<String> = tree
+                .collect_errors()
+                .iter()
+                .map(|e| canon_text(&e.to_string(), opts))
+                .collect();
             errors.sort();
             Outcome::Done { errors, success }
         }
